@@ -54,6 +54,35 @@ Proof. rewrite children_spec. intros [_ [n ->]]. now exists [n]. Qed.
 Lemma children_NoDup t d : NoDup (children t d).
 Proof. apply NoDup_filter, keys_NoDup. Qed.
 
+(* the directory filter of visit_path looks at the path itself, or (regular file, link) at its parent *)
+Lemma filter_parent_prefixes (sd : path -> bool) p :
+  (forall d, prefix d p -> d <> p -> sd d = true) -> filter_parent sd p = true.
+Proof.
+  intros H. unfold filter_parent. destruct p as [|a q]; [reflexivity|]. apply H.
+  - exists [last (a :: q) []]. apply app_removelast_last. discriminate.
+  - intros E. assert (Hl : length (removelast (a :: q)) = length (a :: q)) by now rewrite E.
+    rewrite (app_removelast_last (l := a :: q) []) in Hl at 2 by discriminate.
+    rewrite app_length in Hl. cbn in Hl. lia.
+Qed.
+
+Lemma filter_ok_prefixes (sd : path -> bool) nd p :
+  (forall d, prefix d p -> (d = p -> is_file_kind nd = false /\ is_link_kind nd = false) -> sd d = true) ->
+  filter_ok sd nd p = true.
+Proof.
+  intros H. unfold filter_ok, is_file_kind, is_link_kind in *. destruct (n_kind nd) eqn:Ek.
+  - apply filter_parent_prefixes. intros d Hd Hne. apply H; auto. intros E. congruence.
+  - apply H; [apply prefix_refl|auto].
+  - apply filter_parent_prefixes. intros d Hd Hne. apply H; auto. intros E. congruence.
+  - apply H; [apply prefix_refl|auto].
+Qed.
+
+Lemma filter_ok_all (sd : path -> bool) nd p : (forall d, prefix d p -> sd d = true) -> filter_ok sd nd p = true.
+Proof. intros H. apply filter_ok_prefixes. auto. Qed.
+
+Lemma filter_ok_mono (sd1 sd2 : path -> bool) nd p :
+  (forall d, sd1 d = true -> sd2 d = true) -> filter_ok sd1 nd p = true -> filter_ok sd2 nd p = true.
+Proof. intros H. unfold filter_ok, filter_parent. destruct (n_kind nd); auto; destruct p; auto. Qed.
+
 (* ---------------------------------------------------------------------------------------------- *)
 Section Spec.
   Variable sel_file : path -> bool.
@@ -71,13 +100,13 @@ Section Spec.
      path.  `pr` switches directory pruning (the matches_dir tests) on; the documented meaning of the
      options is pr = false.                                                                      *)
 
-  (* the visit passes the per-entry tests: the entry exists, (visit_path only, with pruning: its path may
-     contain matches), its name is not hidden unless --hidden or it is visited at level 0 (an input path,
+  (* the visit passes the per-entry tests: the entry exists, (visit_path only, with pruning: the directory
+     filter accepts the parent of a regular file / the path itself for every other entry type), its name is not hidden unless --hidden or it is visited at level 0 (an input path,
      or what an input path that is a link points to), no ignore file collected on the way matches it
      unless --no-ignore *)
   Definition enters (pr : bool) (tk : task) (nd : node) : Prop :=
     lookup t (t_path tk) = Some nd /\
-    (t_kind tk = TPath -> pr = true -> sel_dir (t_path tk) = true) /\
+    (t_kind tk = TPath -> pr = true -> filter_ok sel_dir nd (t_path tk) = true) /\
     (c_hidden c = true \/ t_level tk = 0 \/ name_hidden (t_path tk) = false) /\
     (c_no_ignore c = true \/ ignored (t_stack tk) (t_path tk) (is_dir_kind nd) = false).
 
@@ -172,7 +201,7 @@ Section Spec.
     match lookup t (t_path tk) with
     | None => None
     | Some nd =>
-      if (match t_kind tk with TPath => sel_dir (t_path tk) | TEntry => true end)
+      if (match t_kind tk with TPath => filter_ok sel_dir nd (t_path tk) | TEntry => true end)
            && negb (negb (c_hidden c) && (0 <? t_level tk) && name_hidden (t_path tk))
       then Some nd else None
     end.
@@ -203,7 +232,7 @@ Section Spec.
     unfold step, pre_b, body, ign_b. destruct (lookup t (t_path tk)) as [nd|]; [|reflexivity].
     unfold visit_entry.
     destruct (t_kind tk).
-    - destruct (sel_dir (t_path tk)); cbn [andb]; [|reflexivity].
+    - destruct (filter_ok sel_dir nd (t_path tk)); cbn [andb]; [|reflexivity].
       destruct (negb (c_hidden c) && (0 <? t_level tk) && name_hidden (t_path tk)); cbn [negb]; [reflexivity|].
       destruct (c_follow c && mem (t_path tk) vis); [reflexivity|].
       destruct (negb (c_no_ignore c) && ignored (t_stack tk) (t_path tk) (is_dir_kind nd)); [reflexivity|].
@@ -219,7 +248,7 @@ Section Spec.
   Proof.
     unfold enters, pre_b, ign_b. split.
     - intros (H1 & H2 & H3 & H4). rewrite H1. split.
-      + assert (E1 : match t_kind tk with TPath => sel_dir (t_path tk) | TEntry => true end = true).
+      + assert (E1 : match t_kind tk with TPath => filter_ok sel_dir nd (t_path tk) | TEntry => true end = true).
         { destruct (t_kind tk); auto. }
         rewrite E1. cbn [andb].
         destruct H3 as [-> | [-> | ->]]; cbn; [reflexivity| |].
@@ -227,7 +256,7 @@ Section Spec.
         * now rewrite andb_false_r.
       + destruct H4 as [-> | ->]; cbn; auto. now rewrite andb_false_r.
     - intros [H1 H2]. destruct (lookup t (t_path tk)) as [nd'|]; [|discriminate].
-      destruct (match t_kind tk with TPath => sel_dir (t_path tk) | TEntry => true end) eqn:E1; [|discriminate].
+      destruct (match t_kind tk with TPath => filter_ok sel_dir nd' (t_path tk) | TEntry => true end) eqn:E1; [|discriminate].
       cbn [andb] in H1.
       destruct (negb (c_hidden c) && (0 <? t_level tk) && name_hidden (t_path tk)) eqn:E2; [discriminate|].
       cbn [negb] in H1. injection H1 as ->. repeat split; auto.
